@@ -44,17 +44,17 @@ package types
 //@ ext (encoding/json.Number).Float64
 //@   ensures ufb("decimal.is_integer", self) ==> result1 == nil && result0 == tofloat(ufi("decimal.value", self))
 //@ func jsonInteger
-//@   prop C08
+//@   prop C08 C01
 //@   ensures an-integer-is-read-exactly: ufb("decimal.is_integer", n) ==> result1 == nil && result0 == ufi("decimal.value", n)
 //@   nopanic
 //@ func plainJSONValue
-//@   prop C08
+//@   prop C08 C01
 //@   ensures never-nil-for-a-value: value != nil ==> result != nil
 //@   ensures other-values-are-kept: !isT(value, json.Number) ==> result == value
 //@   nopanic
 
 //@ func (*ColumnImage).UnmarshalJSON
-//@   prop C08
+//@   prop C08 C01
 //@   macro written() := ufi("decimal.value", value.(json.Number))
 //@   requires c != nil
 //@   modifies heap.all
@@ -72,7 +72,7 @@ package types
 // C02: "no image has rows" (the test FlushUndoLog uses to skip writing an undo log). i stands for an
 // arbitrary index.
 //@ func (RecordImages).IsEmptyImage
-//@   prop C02 C01
+//@   prop C02 C01 C08
 //@   let i := some(int, "i")
 //@   loop 1 invariant index: rangeindex1 >= -1
 //@   loop 1 invariant none-so-far: 0 <= i && i <= rangeindex1 && i < len(rs) && rs[i] != nil ==> len(rs[i].Rows) == 0
